@@ -35,6 +35,8 @@ pub struct Spec {
     pub cwd: Option<String>,
     pub path: Option<String>,
     pub bin: Option<String>,
+    /// seconds before the child is killed and reported as timed out (default 30)
+    pub timeout_s: Option<u64>,
 }
 
 pub const BASE_PATH: &str = "/usr/local/sbin:/usr/local/bin:/usr/sbin:/usr/bin:/sbin:/bin";
@@ -96,7 +98,7 @@ pub fn run(spec: &Spec) -> Out {
         match child.try_wait() {
             Ok(Some(st)) => break Some(st),
             Ok(None) => {
-                if t0.elapsed() > Duration::from_secs(30) {
+                if t0.elapsed() > Duration::from_secs(spec.timeout_s.unwrap_or(30)) {
                     let _ = child.kill();
                     timed_out = true;
                     break child.wait().ok();
